@@ -421,27 +421,34 @@ def _hex_args(line):
 
 
 def shrink_case(prop, case, still_fails, budget=400):
-    """greedy shrinking: cut hex arguments at the end / zero bytes while `still_fails` holds.
+    """greedy shrinking: cut hex arguments at the end while `still_fails` holds. The same hex string
+    occurring in several lines of a case is one input and is cut consistently in all of them.
     still_fails(list of candidate cases) -> list of bool (runs both sides in one batch)."""
     best = case
     rounds = 0
-    while rounds < 12:
+    while rounds < 14:
         rounds += 1
-        cands = []
-        for li, line in enumerate(best.lines):
+        hexes = []
+        for line in best.lines:
             parts = line.split("\t")
             for ai in _hex_args(line):
-                h = parts[ai]
-                if h == "-":
-                    continue
-                nbytes = len(h) // 2
-                for cut in sorted(set([nbytes // 2, nbytes - 8, nbytes - 4, nbytes - 2, nbytes - 1])):
-                    if 0 <= cut < nbytes:
-                        np_ = list(parts)
-                        np_[ai] = h[: cut * 2] if cut > 0 else "-"
-                        nl = list(best.lines)
-                        nl[li] = "\t".join(np_)
-                        cands.append(Case(nl, dict(best.meta)))
+                if parts[ai] != "-" and len(parts[ai]) >= 2 and parts[ai] not in hexes:
+                    hexes.append(parts[ai])
+        cands = []
+        for h in hexes:
+            nbytes = len(h) // 2
+            for cut in sorted(set([nbytes // 2, nbytes - 16, nbytes - 8, nbytes - 4, nbytes - 2, nbytes - 1])):
+                if 0 <= cut < nbytes:
+                    nh = h[: cut * 2] if cut > 0 else "-"
+                    nl = []
+                    for line in best.lines:
+                        parts = line.split("\t")
+                        nl.append("\t".join(nh if (i > 0 and x == h) else x for i, x in enumerate(parts)))
+                    meta = dict(best.meta)
+                    for k, v in list(meta.items()):
+                        if v == h:
+                            meta[k] = nh
+                    cands.append(Case(nl, meta))
         cands = cands[:budget]
         if not cands:
             break
